@@ -281,6 +281,13 @@ func genIso(r *kit.Rand, kind string, big bool) []string {
 		}
 		gs = append(gs, g)
 	}
+	// sometimes: two DIFFERENT groups whose ids collide (finding groupid-delimiter-collision): they share a receiver
+	if len(dims) == 2 && len(gs) >= 2 && r.Chance(1, 3) {
+		x := kit.Pick(r, []string{"x", "", "é"})
+		gs[0].tags = map[string]string{dims[0]: x + "," + dims[1] + "=y", dims[1]: "z"}
+		gs[1].tags = map[string]string{dims[0]: x, dims[1]: "y," + dims[1] + "=z"}
+		gs[1].name = gs[0].name
+	}
 	// random interleaving (NOT globally time-ordered: every interleaving of the groups is legal)
 	left := 0
 	for _, g := range gs {
@@ -341,6 +348,8 @@ func generate(out *kit.Out, f kit.Flags) {
 			id, ls = fmt.Sprintf("g%d", i), genGid(rr)
 		case only == "gb" || (only == "" && k < 6):
 			id, ls = fmt.Sprintf("b%d", i), genGb(rr)
+		case only == "dmx" || (only == "" && k < 7):
+			id, ls = fmt.Sprintf("d%d", i), genDmx(rr, f.Tier == "thorough" && rr.Chance(1, 3))
 		default:
 			// round-robin over the kinds so that every node is exercised in every run
 			var kind string
